@@ -84,6 +84,35 @@ def rule_L(ck, rule="L"):
             for e in later[:1]:
                 rec.finding(rule + "1-order", "%s:destroy-after-release-in-%s[%s]" % (fn.replace("w_", ""), tu.libfn(sm, e).split("@")[0], ck.catkey()),
                             "%s destroys %r after the block was released by %r" % (fn, e, d), config=tu.cfg)
+        # ---- L4: an operand that keeps its (non-null) block but ends with fewer elements has had objects destroyed:
+        #          size() may only drop together with destructor calls on that block (a bookkeeping reset alone leaves
+        #          the objects alive, unreachable, never destroyed, and the next emplace_back constructs over them)
+        if ntd and not tu.meta.get("w_ctor", {}).get("element"):
+            base = pre_facts(tu, fn, kind, inv=False) if kind in MUTATORS else Facts()
+            for (arg, role, pre, post) in W[fn]:
+                if role != "live" or pre is None or post is None:
+                    continue
+                b0, b1 = tu.obs(fn, pre, "begin"), tu.obs(fn, post, "begin")
+                s0, s1 = tu.obs(fn, pre, "size"), tu.obs(fn, post, "size")
+                for ff in case_split([b1, s1], base, max_cases=32):
+                    b = simplify(b1, ff)
+                    if b.is_const() and b.c == 0:
+                        continue  # no block afterwards: nothing can live in it (V2 / ownership rules cover the hand-over)
+                    d = b - simplify(b0, ff)
+                    if not (d.is_const() and d.c == 0):
+                        continue  # a different block: relocation / hand-over, covered by L2 and the ownership rules
+                    ds = simplify(s1, ff) - simplify(s0, ff)
+                    if (ds.is_const() and ds.c >= 0) or ff.nonneg(ds):
+                        continue
+                    got = [e for e in life if e.kind == "DTOR" and ff.eval(simplify_cond(e.guard, ff)) is not False and _same_block(it, e.args[0], b1)]
+                    rec.ob(rule + "4", bool(got), {"config": tu.cfg, "witness": fn, "obligation": "'%s' keeps its block and may end with fewer elements only if destructors ran on that block" % arg})
+                    if not got:
+                        if has_unknown(ds):
+                            rec.broken("%s %s4 %s: size change of '%s' undecided: %s" % (tu.cfg, rule, fn, arg, show(ds)[:120]))
+                            continue
+                        rec.finding(rule + "4", "%s:size-drops-without-destruction-of-%s[%s]" % (fn.replace("w_", ""), arg, ck.catkey()),
+                                    "%s: operand '%s' keeps its block and its size() changes by %s, but no destructor runs on that block on this path (%s): the objects stay alive and unreachable" % (
+                                        fn, arg, show(ds)[:80], " && ".join(show_cond(c) for c in ff.raw[-4:])[:240]), config=tu.cfg)
         # ---- L2: relocation of non-trivial objects goes through their constructors
         if nt and kind in ("reserve", "erase1", "erase2", "copy_ctor", "copy_assign", "move_assign"):
             bulks = [e for e in sm.events if e.kind in ("MEMCPY", "MEMMOVE") and _data_region(it, e.args[0]) is not None and _data_region(it, e.args[1]) is not None]
@@ -130,6 +159,28 @@ def rule_L(ck, rule="L"):
                                 "%s relocates element by element: all objects of the moved element are constructed at the target (%r) before the source objects are destroyed (%r); "
                                 "with varying sizes the target range [start(to), start(to)+size(from)) reaches into the source when the erased extent is smaller than the moved element" % (fn, c, d),
                                 config=tu.cfg)
+
+        # ---- L3m: the same hazard for trivially copyable spans of a non-trivially relocatable list: the moved element's
+        #          span is copied inside one block, source and destination overlap when the erased extent is smaller than
+        #          the span - a MEMCPY there is undefined, the aliasing-safe path (MEMMOVE / element-wise) is required.
+        #          All-fixed locators move by whole strides >= the element extent (P1e-fit of C02): ranges stay apart.
+        if kind in ("erase1", "erase2") and not pl.all_fixed_locator:
+            bad = []
+            for e in sm.events:
+                if e.kind != "MEMCPY":
+                    continue
+                rd, rs = it.region_of(e.args[0]), it.region_of(e.args[1])
+                od, os_ = _region_owner(rd), _region_owner(rs)
+                if rd[0] == "DATA" and rs[0] == "DATA" and od is not None and od == os_:
+                    n = simplify(e.args[2], Facts([e.guard]))
+                    if n.is_const() and n.c == 0:
+                        continue
+                    bad.append(e)
+            rec.ob(rule + "3m", not bad, {"config": tu.cfg, "witness": fn, "obligation": "no MEMCPY between two places of the same data block during erase"})
+            for e in bad[:1]:
+                rec.finding(rule + "3m", "%s:memcpy-inside-one-block-in-%s[%s]" % (fn.replace("w_", ""), tu.libfn(sm, e).split("@")[0], ck.catkey()),
+                            "%s copies %s bytes with MEMCPY from and to the block of the same vector (%r at %s): source and destination overlap when the erased extent is smaller than the moved span" % (
+                                fn, show(e.args[2])[:80], e, tu.where(sm, e)), config=tu.cfg)
 
 
 def _same_block(it, a, b):
